@@ -1,14 +1,14 @@
-\* C02 reciprocity -- quick
+\* C02 reciprocity -- thorough
 CONSTANTS
   ShiftStyle = "pad" LevelStyle = "match" TruncStyle = "exact" AnalyticStyle = "outer" BCubic = "plus"
-  Sizes = {302, 403}
-  Cells = {11, 23}
-  Halos = {99, 0, 1, 2, 3, 4}
-  ModeSet = {202, 402, 1212}
-  NZs = {3}
-  LevelLists = "single"
-  Tabs = {1}
-  Analytic = {FALSE}
+  Sizes = {202, 302, 403, 304, 502}
+  Cells = {11, 23, 32}
+  Halos = {99, 0, 1, 2, 3, 4, 5, 6}
+  ModeSet = {202, 402, 204, 404, 1212}
+  NZs = {4}
+  LevelLists = "asc"
+  Tabs = {1, 2}
+  Analytic = {FALSE, TRUE}
   Family = "recip"
 INIT Init
 NEXT Next
